@@ -847,6 +847,8 @@ impl DebugSession {
                 },
                 1 => {
                     log::trace!("Shutdown received from LSP.");
+                    // A selected operation has to be completed, otherwise crossbeam panics when it is dropped
+                    let _ = oper.recv(lsp_shutdown_receiver.receiver());
                     #[cfg(datatrash_mos_verif)]
                     crate::verif_dbg::event("life", "\"what\":\"shutdown_signal\",\"n\":0");
                     break;
